@@ -4,6 +4,7 @@ import HclModel.Conc.SymbolTable
 import HclModel.Write.Nodes
 import HclModel.Write.StringLit
 import HclModel.Lex.Pos
+import HclModel.Lex.RangeScan
 import HclModel.Syntax.TypeExpr
 import Driver.OpDec
 import Driver.OpBuild
@@ -169,6 +170,25 @@ def handle (st : St) (line : String) : St × String :=
     | some b, some l, some c, some sg =>
       let rs := Pos.emitAll ⟨b, l, c⟩ 0 sg
       (st, " ".intercalate (rs.map fun r => s!"{r.ty}:{r.start.byte}.{r.start.line}.{r.start.col}-{r.stop.byte}.{r.stop.line}.{r.stop.col}"))
+    | _, _, _, _ => (st, "bad-op")
+  | "RSCAN" :: startB :: startL :: startC :: wins =>
+    -- RSCAN <byte> <line> <col> w<tokLen>:<len>.<nl>,<len>.<nl>... ...  →  sb.sl.sc-eb.el.ec ... (hcl.RangeScanner)
+    let parseWin (x : String) : Option Pos.Win :=
+      if x.startsWith "w" then
+        match ((x.drop 1).toString).splitOn ":" with
+        | [tl, cls] => do
+          let tl ← tl.toNat?
+          let cl ← (if cls == "" then some [] else (cls.splitOn ",").mapM fun c =>
+            match c.splitOn "." with
+            | [len, nl] => do pure (⟨← len.toNat?, nl == "1"⟩ : Pos.Cl)
+            | _ => none)
+          pure ({ cls := cl, tokLen := tl } : Pos.Win)
+        | _ => none
+      else none
+    match startB.toNat?, startL.toNat?, startC.toNat?, (wins.filter (· ≠ "")).mapM parseWin with
+    | some b, some l, some c, some ws =>
+      let rs := Pos.scanAll ⟨b, l, c⟩ ws
+      (st, if rs.isEmpty then "-" else " ".intercalate (rs.map fun r => s!"{r.start.byte}.{r.start.line}.{r.start.col}-{r.stop.byte}.{r.stop.line}.{r.stop.col}"))
     | _, _, _, _ => (st, "bad-op")
   | "WOP" :: ops =>
     -- WOP set:<name>:<expr> | rm:<name> | ren:<src>:<dst> | blk:<type>:<l1,l2|->:<id> | rmb:<id> | nl ...
